@@ -241,6 +241,50 @@ Definition run_pipe_spec (x : xval) : xval :=
   | None => bad_input
   end.
 
+(** ---------------------------------------------------------------------------
+    The same history written as HTTP/1.1 text to a real server on a loopback port
+    ([pathsanpipe.wire]): a request line cannot carry bytes <= ' ' or DEL (not sent: 96), a HEAD
+    answer has no body; everything else is [step_op]. *)
+Definition wire_ok (s : bytes) : bool :=
+  negb (is_empty s) && forallb (fun c => (32 <? c) && negb (c =? 127)) s.
+Definition strip_head_body (m : bytes) (x : xval) : xval :=
+  if beq m (B "HEAD") then
+    match x with
+    | XL [XN s; XB _; l] => XL [XN s; XB []; l]
+    | _ => x
+    end
+  else x.
+Definition step_op_wire (c : pcfg) (cache : cache_t) (o : op) : xval * cache_t :=
+  match o with
+  | OReq m t k =>
+      if wire_ok m && wire_ok t then
+        let '(out, cache') := step_request c cache m t k in (strip_head_body m out, cache')
+      else (XL [XN 96], cache)
+  | OAlias _ _ => step_op c cache o
+  end.
+Fixpoint run_history_wire (c : pcfg) (cache : cache_t) (ops : list op) : list xval :=
+  match ops with
+  | [] => []
+  | o :: r => let '(out, cache') := step_op_wire c cache o in out :: run_history_wire c cache' r
+  end.
+Definition run_pipe_wire (x : xval) : xval :=
+  match decode_scenario x with
+  | Some (c, reqs) => XL (run_history_wire c [] reqs)
+  | None => bad_input
+  end.
+Definition spec_request_wire (o : op) : xval :=
+  match o with
+  | OReq m t _ => if wire_ok m && wire_ok t then spec_request o else XN 96
+  | OAlias _ _ => XN 97
+  end.
+Definition run_pipe_spec_wire (x : xval) : xval :=
+  match decode_scenario x with
+  | Some (_, reqs) => XL (map spec_request_wire reqs)
+  | None => bad_input
+  end.
+
 Definition pathsanpipe_table : list (bytes * (xval -> xval)) :=
   [ (B "pathsanpipe.run", run_pipe);
-    (B "pathsanpipe.spec", run_pipe_spec) ].
+    (B "pathsanpipe.spec", run_pipe_spec);
+    (B "pathsanpipe.wire", run_pipe_wire);
+    (B "pathsanpipe.wire_spec", run_pipe_spec_wire) ].
